@@ -265,6 +265,41 @@ impl<'a> PoolSet<'a> {
 /// small harness-owned stack buffers and whose other classes are exhausted.  Small stack arrays
 /// are tracked field-sensitively by the symbolic executor, so free-list indices stay constants
 /// (a free list in arena memory makes every recycled slot address symbolic).
+impl<'a> PoolSet<'a> {
+    /// Straight-line equivalent of `contains` for pool sets whose classes 2..19 are empty
+    /// (verif_over / verif_tiny): lets harnesses that are not about the ownership test run with a
+    /// small unwind bound.  `contains` itself is decided for any address under C12 (12.d).
+    pub(crate) fn verif_contains2(&self, ptr: *const u8) -> bool {
+        self.pools[0].contains(ptr) || self.pools[1].contains(ptr)
+    }
+}
+
+#[repr(align(8))]
+pub(crate) struct StaticSlots(pub [u8; 128]);
+pub(crate) static mut VERIF_SLOTS0: StaticSlots = StaticSlots([0; 128]);
+pub(crate) static mut VERIF_SLOTS1: StaticSlots = StaticSlots([0; 128]);
+pub(crate) static mut VERIF_IDX0: [u32; 2] = [0; 2];
+pub(crate) static mut VERIF_IDX1: [u32; 2] = [0; 2];
+
+impl<'a> PoolSet<'a> {
+    /// Stub for `PoolSet::new` inside `Runtime::new`: the stack-buffer pool set of `verif_over`, over
+    /// static buffers (the stub has no caller frame to put them in).
+    pub(crate) fn verif_static(arena: &'a Arena) -> Self {
+        #[allow(static_mut_refs)]
+        let ps = unsafe {
+            PoolSet::verif_over(
+                std::mem::transmute::<&'a Arena, &'static Arena>(arena),
+                VERIF_SLOTS0.0.as_mut_ptr(), VERIF_IDX0.as_mut_ptr(), VERIF_SLOTS1.0.as_mut_ptr(), VERIF_IDX1.as_mut_ptr(),
+            )
+        };
+        unsafe { std::mem::transmute::<PoolSet<'static>, PoolSet<'a>>(ps) }
+    }
+    pub(crate) fn verif_slot0_base() -> *const u8 {
+        #[allow(static_mut_refs)]
+        unsafe { VERIF_SLOTS0.0.as_ptr() }
+    }
+}
+
 impl PoolSet<'static> {
 pub(crate) fn verif_over(arena: &'static Arena, s0: *mut u8, i0: *mut u32, s1: *mut u8, i1: *mut u32) -> PoolSet<'static> {
     let mk = |slots: *mut u8, idx: *mut u32, size: u32, count: u32| Pool {
